@@ -5,30 +5,23 @@ From NV Require Import Bytes GenConsts ReSyntax ReParse ReEmit ReVM.
 Import ListNotations.
 Local Open Scope N_scope.
 
-(* re_groupcount: skip = characters the C loop steps over without looking at them (the s++ / s += k
-   inside the loop body) *)
-Fixpoint gcount (s : bytes) (skip : nat) (n : nat) (brk : bool) (brk2 : N) : nat :=
+(* re_groupcount (after fix f534655): skip = bytes the C loop steps over without looking at them:
+     if (s[0] == '\\' && s[1]) s += 2;
+     else if (s[0] == '[') { the statements of regex.c's brk_len(), on the pointer }      -- s += brk_len(s)
+     else { if (s[0] == '(') n++; s++; }                                                              *)
+Fixpoint gcount (s : bytes) (skip : nat) (n : nat) : nat :=
   match s with
   | [] => n
   | c :: r =>
     match skip with
-    | S k => gcount r k n brk brk2
+    | S k => gcount r k n
     | O =>
-      if negb brk then
-        let n' := if c =? 40 then S n else n in
-        if (c =? 92) && negb (hd0 r =? 0) then gcount r 1 n' false brk2
-        else if (c =? 91) && negb (hd0 r =? 0) && negb (hd0 (tl r) =? 0) then
-          gcount r (if hd0 r =? 94 then 2%nat else 1%nat) n' true brk2
-        else gcount r 0 n' false brk2
-      else if brk2 =? 0 then
-        let brk' := negb (c =? 93) in
-        if (c =? 91) && ((hd0 r =? 58) || (hd0 r =? 42) || (hd0 r =? 61)) then gcount r 1 n brk' (hd0 r)
-        else gcount r 0 n brk' 0
-      else if (c =? brk2) && (hd0 r =? 93) then gcount r 1 n brk 0
-      else gcount r 0 n brk brk2
+      if (c =? 92) && negb (hd0 r =? 0) then gcount r 1 n
+      else if c =? 91 then gcount r (brk_len s - 1) n
+      else gcount r 0 (if c =? 40 then S n else n)
     end
   end.
-Definition re_groupcount (s : bytes) : nat := gcount s 0 0 false 0.
+Definition re_groupcount (s : bytes) : nat := gcount s 0 0.
 
 Record rset := { rs_prog : prog; rs_cflg : Z; rs_n : nat; rs_grp : list Z; rs_setgrpcnt : list nat; rs_grpcnt : nat }.
 
